@@ -329,6 +329,27 @@ def build_obligation(inst):
             return [(z3.And(*[g_ == e_ for g_, e_ in zip(got, exp)]) if got else z3.BoolVal(True), None)]
         return ob
 
+    if kind == "getslice_pair":
+        # two getslice terms alive at the same time (op instances are cached by a key derived from the index): the
+        # declared shape of each must still be numpy's.  Concrete structural check (no symbolic part).
+        _, ia, ib = inst
+
+        def ob(mk):
+            import z3
+            from funsor import Reals, Variable
+            from funsor.interpretations import lazy
+            x = Variable("x", Reals[4, 4, 4])
+            with lazy:
+                ta = x[ia]
+                tb = x[ib]
+            ok = True
+            for t, idx in ((ta, ia), (tb, ib)):
+                want = np.empty((4, 4, 4), dtype=np.int8)[idx].shape
+                if tuple(t.output.shape) != tuple(want):
+                    ok = False
+            return [(z3.BoolVal(ok) if mk.symbolic else ok, None)]
+        return ob
+
     if kind == "slice_size":
         # Slice(name, start, stop, step, dtype): declared input size vs the number of selected elements
         def ob(mk):
@@ -440,13 +461,19 @@ def instances(tier, seed):
         out.append(("broadcast", ranks))
     for opn in ("sum", "amax", "logsumexp", "all", "mean"):
         for rank in (1, 2, 3):
-            for axis in [None] + list(range(-rank, rank)) + ([(0, 1)] if rank >= 2 else []):
+            for axis in [None] + list(range(-rank, rank)) + ([(0, 1), (0, -1), (-1,), (-2, -1)] if rank >= 2 else [(-1,)]):
                 for kd in (False, True):
                     out.append(("reduction", opn, rank, axis, kd))
     for r1 in (1, 2, 3):
         for r2 in (1, 2, 3):
             out.append(("matmul", r1, r2))
     out.append(("slice_size",))
+    idxs = [slice(1, 3), (1, 3, None), (slice(None), None), (None, slice(None)), slice(None), (None, None, None), (0, slice(None)), (0, None, None),
+            (slice(0, 2), 1), (0, 2, 1), (Ellipsis, 0), (slice(None), slice(None), 0), 2, (2,), (slice(2, None, None),)]
+    for ia in idxs:
+        for ib in idxs:
+            if ia is not ib:
+                out.append(("getslice_pair", ia, ib))
     # Engine A programs (int and bool themes carry the range obligations; all themes carry the declared types)
     from lang import gen
     rng = random.Random(seed)
